@@ -308,6 +308,13 @@ def _run_split(case, ctx):
 
     tr = gen.make_track(_points(n), _times(n))
     tr.uid = "src"
+    if (n + sum(markers)) % 4 == 1 and n >= 2:
+        # fixes whose altitude is unknown (NaN): lengths computed on pieces that hold them are NaN, the pieces are there
+        # all the same
+        for i in range(n):
+            if i % 3 == 2 or i == n - 1:
+                tr.getObs(i).position.setZ(float("nan"))
+        cls.append("fixes_with_unknown_altitude")
     tr.createAnalyticalFeature("id", list(range(n)))
     if sum(markers) % 2 == 0:
         # error path first: the same requests made BEFORE the marker / tested feature exists are rejected (after a
@@ -498,6 +505,12 @@ def _run_seg(case, ctx):
         tr.createAnalyticalFeature(names[f], col)
     if (n + k + sum(expected)) % 3 == 1:
         tr, _how = gen.derive(tr, (vals, thr, mode), allow=gen.DERIVE_HOWS + ["hidden_slots", "hidden_slots"])
+    defined = [v for row in vals for v in row if v == v]
+    if defined and (n + 3 * k + sum(expected)) % 4 == 2:
+        # the track declares a no-data code (as tracks read from CSV files do; it concerns blank COORDINATE fields and
+        # removeNoDataValues) that happens to be one of the tested feature values: thresholds are compared all the same
+        tr.no_data_value = defined[(n + k) % len(defined)]
+        cls.append("no_data_code_equal_to_a_tested_value")
     if case.get("prior"):
         # history: the output feature already exists, filled by the other mode
         r0 = M.call(segmentation, tr, afs, MK, thrs, _mode_const("OR" if mode == "AND" else "AND"))
